@@ -534,6 +534,14 @@ class C03(ClientProp):
                 ops.append(o)
             for ch in chunks(ops, 20):
                 out.append(one(rng, api, ch, t0=t0_pre2038(rng)))
+        # the timestamp of a frame is the epoch second, whatever the host's wall clock shows: on both passes through the hour
+        # that is repeated when clocks go back, and around the hour that is skipped when they go forward
+        from ..clock import transition_days
+        for zone in ("Asia/Jerusalem", "Europe/Berlin", "America/New_York", "Australia/Lord_Howe")[: ctx.pick(3, 4)]:
+            for t in transition_days(zone, 2026):
+                for off in (-3590, -1800, -1, 10, 1800, 3599, 3700):
+                    api = 1 + (off + t) % 2
+                    out.append(one(rng, api, [self._any_op(rng, api), self._any_op(rng, api)], zone=zone, t0=t + off + 0.25))
         out += self.tlc_scripts(ctx, ctx.pick(300, 5000))
         return out
 
